@@ -559,7 +559,7 @@ def tls_strategies():
         cipher_suite=u16,
         compression_method=st.integers(0, 255),
         key_share=st.one_of(st.none(), key_share),
-        pre_shared_key=st.one_of(st.none(), st.integers(0, 0xFFFF)),
+        pre_shared_key=st.one_of(st.none(), st.sampled_from([0, 0, 1, 0xFFFF]), st.integers(0, 0xFFFF)),  # 0 = present but falsy
         supported_version=st.one_of(st.none(), u16),
         other_extensions=unk_ext,
     )
@@ -571,11 +571,11 @@ def tls_strategies():
     fin = st.builds(T.Finished, verify_data=st.binary(max_size=48))
     nst = st.builds(
         T.NewSessionTicket,
-        ticket_lifetime=st.integers(0, 0xFFFFFFFF),
-        ticket_age_add=st.integers(0, 0xFFFFFFFF),
+        ticket_lifetime=st.one_of(st.sampled_from([0, 1, 0xFFFFFFFF]), st.integers(0, 0xFFFFFFFF)),
+        ticket_age_add=st.one_of(st.sampled_from([0, 1, 0xFFFFFFFF]), st.integers(0, 0xFFFFFFFF)),
         ticket_nonce=st.binary(max_size=8),
         ticket=st.binary(min_size=1, max_size=100),
-        max_early_data_size=st.one_of(st.none(), st.integers(0, 0xFFFFFFFF)),
+        max_early_data_size=st.one_of(st.none(), st.sampled_from([0, 0, 1, 0xFFFFFFFF]), st.integers(0, 0xFFFFFFFF)),  # 0 = present but falsy
         other_extensions=unk_ext,
     )
     return {"client_hello": ch, "server_hello": sh, "encrypted_extensions": ee, "certificate": cert, "certificate_request": cr, "certificate_verify": cv, "finished": fin, "new_session_ticket": nst}
